@@ -565,13 +565,18 @@ class MixtureGen(object):
         fp = None
         if mode in ('wt', 'vol'):
             trace = self.trace_percents(n) if (depth == 0 and opts.get('trace')) else None
+            full = False
             if trace:
                 texts, fp = trace
             else:
                 texts, full = self.percents(n)
             spell = rng.choice(WT_SPELLINGS if mode == 'wt' else VOL_SPELLINGS)
             for i in range(n):
-                node = self.component(depth, need_density or mode == 'vol', opts)
+                # a volume share needs the component's density - unless the share is zero (a stated 0, or a remainder
+                # of 0 left to the last part): such a component vanishes whether or not its density is known
+                vanishes = (i < n - 1 and frac(texts[i]) == 0) or (i == n - 1 and full)
+                vol_needs = mode == 'vol' and not (vanishes and rng.random() < 0.7)
+                node = self.component(depth, need_density or vol_needs, opts)
                 if i == n - 1:
                     if fp:
                         # the trace component names atoms of its own (its loss must show in the atoms)
